@@ -374,3 +374,31 @@ def agg_sites(body, adt):
         for s in b["stmts"]:
             if s["k"] == "assign" and s["rv"]["k"] == "agg" and s["rv"].get("adt") == adt:
                 yield bi, s
+
+
+def natural_loops(body):
+    """List of (header, set of blocks) for every back edge u->h with h dominating u (normal edges)."""
+    dom = dominators(body)
+    pr = preds(body)
+    loops = []
+    for u, blk in enumerate(body.blocks):
+        for h in succs(blk):
+            if u < len(dom) and h in dom[u]:
+                nodes = {h, u}
+                work = [u]
+                while work:
+                    x = work.pop()
+                    if x == h:
+                        continue
+                    for p in pr[x]:
+                        if p not in nodes:
+                            nodes.add(p)
+                            work.append(p)
+                loops.append((h, nodes))
+    return loops
+
+
+def loop_depth(body, bb, loops=None):
+    loops = loops if loops is not None else natural_loops(body)
+    heads = {h for h, nodes in loops if bb in nodes}
+    return len(heads)
